@@ -325,7 +325,13 @@ CLAIMS = {
     "C07": dict(
         technique="Lean 4 theorems on a model of ir_merge with the set-iteration order as an explicit argument + replay of every real ir_merge call on the model; inspect.signature as predicate",
         text=(
-            "Kernel-checked about Merge.irMergeParams (parser_utils.ir_merge on the parameter maps): irMerge_keys (for "
+            "Kernel-checked, the CONTENT of the merge: MergeContent.irMerge_get - for every iteration order of the common names "
+            "and every name k, the merged description holds, for a name both halves know, the documented entry with "
+            "exactly its gaps filled from the signature (mergeParam_precedence: documented prose, type and a documented "
+            "default that is a value survive; mergeParam_fills: where the docstring is silent the signature's information "
+            "comes out), for a name only the docstring knows the documented entry untouched, for a name only the signature "
+            "knows the signature's entry; ClassKind.mergeAll_keys - merging the annotated assignments of a class body over "
+            "the documented entries drops nothing, duplicates nothing, keeps documented names in place. " "Kernel-checked about Merge.irMergeParams (parser_utils.ir_merge on the parameter maps): irMerge_keys (for "
             "EVERY iteration order of the set of common names the merged description has exactly the target's names in the "
             "target's order followed by the names only the signature has, in signature order - nothing dropped, nothing "
             "duplicated), updKey_at / mergeParam (documented information wins, the signature fills the gaps), "
